@@ -192,9 +192,13 @@ void h_parse_date(void)
 }
 /* C09.calendar_inverse: the two spec directions are inverse on [1970, 2100) at ms precision (pure spec lemma that
    turns format_text + parse_value into the round trip) */
+#ifndef SLICE_LO
+#define SLICE_LO 0L
+#define SLICE_HI (NS_2100 / 1000000L)
+#endif
 void h_cal_inverse(void)
 {
-  long ms; __CPROVER_assume(ms >= 0 && ms < NS_2100 / 1000000L);
+  long ms; __CPROVER_assume(ms >= SLICE_LO && ms < SLICE_HI);
   long ns = ms * 1000000L;
   struct fields f = spec_fields_from_ns(ns);
   __CPROVER_assert(spec_valid_fields(f), "C09.calendar_inverse.valid");
@@ -204,7 +208,7 @@ void h_cal_inverse(void)
 /* C09.ts_roundtrip: direct composition on the real code */
 void h_roundtrip(void)
 {
-  long ms; __CPROVER_assume(ms >= 0 && ms < NS_2100 / 1000000L);
+  long ms; __CPROVER_assume(ms >= SLICE_LO && ms < SLICE_HI);
   struct Tickval_m tv; tv.ns = ms * 1000000L;
   char txt[21];
   unsigned long n = date_time_format(&tv, txt, 5);
@@ -213,6 +217,95 @@ void h_roundtrip(void)
   VACUITY_PROBE();
 }
 '''
+
+
+NATIVE_CAL = r"""
+/* exhaustive native evaluation of the pure calendar lemma behind the round trip, on the same spec text as the proofs */
+#include <stdio.h>
+#define __CPROVER_assert(c, m) ((void)0)
+%(prelude)s
+int main(void)
+{
+  const long days = NS_2100 / 1000000000L / 86400;   /* 47482 days: 1970-01-01 .. 2099-12-31 */
+  unsigned long cases = 0;
+  /* (a) every day x boundary/midday seconds x boundary milliseconds: fields are valid and recompose to the instant */
+  static const long tods[] = {0, 1, 59, 60, 3599, 3600, 43200, 86340, 86398, 86399};
+  static const long mss[] = {0, 1, 499, 500, 998, 999};
+  for (long d = 0; d < days; ++d)
+    for (unsigned a = 0; a < sizeof(tods) / sizeof(*tods); ++a)
+      for (unsigned b = 0; b < sizeof(mss) / sizeof(*mss); ++b)
+      {
+        const long ns = ((d * 86400L + tods[a]) * 1000L + mss[b]) * 1000000L;
+        const struct fields f = spec_fields_from_ns(ns);
+        ++cases;
+        if (!spec_valid_fields(f) || spec_ns_from_fields(f) != ns)
+        { printf("FAIL day=%%ld tod=%%ld ms=%%ld -> %%d-%%u-%%u %%u:%%u:%%u.%%u\n", d, tods[a], mss[b], f.y, f.mo, f.d, f.h, f.mi, f.s, f.ms); return 1; }
+      }
+  /* (b) every second of the day x every millisecond, on a leap day, a century-adjacent day, the first and the last day */
+  static const long ds[] = {0, 11016 /* 2000-02-29 */, 24836 /* 2038-01-01 */, 47481 /* 2099-12-31 */};
+  for (unsigned k = 0; k < sizeof(ds) / sizeof(*ds); ++k)
+    for (long tod = 0; tod < 86400; ++tod)
+      for (long ms = 0; ms < 1000; ++ms)
+      {
+        const long ns = ((ds[k] * 86400L + tod) * 1000L + ms) * 1000000L;
+        const struct fields f = spec_fields_from_ns(ns);
+        ++cases;
+        if (!spec_valid_fields(f) || spec_ns_from_fields(f) != ns) { printf("FAIL day=%%ld tod=%%ld ms=%%ld\n", ds[k], tod, ms); return 1; }
+      }
+  printf("OK cases=%%lu days=%%ld\n", cases, days);
+  return 0;
+}
+"""
+
+
+def _native_cal(wd, tier, seed):
+    """the pure spec lemma 'fields_from_ns and ns_from_fields are inverse on [1970,2100) and yield valid fields' -- one undivided CBMC
+    query did not finish in 25 min on kissat and a 10-year slice not in 20 min (64-bit division chains), so it is evaluated natively:
+    exhaustive over all 47482 days (x 10 boundary seconds x 6 boundary ms) and over all 86.4e6 ms of four days.  Never counted as proved."""
+    import subprocess, os, time
+    t0 = time.time()
+    src = os.path.join(wd, 'native_cal.c')
+    exe = os.path.join(wd, 'native_cal')
+    pre = PRE_STRUCTS + PRELUDE[:PRELUDE.index('/* ---------------- assumed contracts on the opaque Tickval')]
+    open(src, 'w').write(NATIVE_CAL % dict(prelude=pre))
+    res = dict(id='C09.calendar_inverse.native', kind='exhaustive-native(47482 days x 10 s x 6 ms + 4 days x 86400 s x 1000 ms)', ok=False, cases=0)
+    p = subprocess.run(['gcc', '-O2', '-w', '-o', exe, src], stdout=subprocess.PIPE, stderr=subprocess.STDOUT, text=True)
+    if p.returncode != 0:
+        res.update(broken=True, detail='native build failed: ' + p.stdout[-600:])
+        return res
+    p = subprocess.run([exe], stdout=subprocess.PIPE, stderr=subprocess.STDOUT, text=True, timeout=900)
+    res['time'] = round(time.time() - t0, 2)
+    res['detail'] = p.stdout.strip()[-400:]
+    m = __import__('re').search(r'OK cases=(\d+)', p.stdout)
+    if p.returncode == 0 and m:
+        res.update(ok=True, cases=int(m.group(1)))
+    elif p.returncode != 1:
+        res['broken'] = True
+    return res
+
+
+
+def _native_roundtrip(wd, tier, seed):
+    """direct round trip on the real compiled codecs (ASan+UBSan): replay/k_date.cpp 'search' = first, last and a midday millisecond of
+    every day 1970..2099 plus a prime stride, each through date_time_format/_parse, time_parse, date_parse against gmtime_r.  The
+    undivided CBMC query (h_roundtrip) did not finish in 30 min; this is an enumeration, never counted as proved."""
+    import os, time
+    from vlib import replay as rp
+    t0 = time.time()
+    res = dict(id='C09.ts_roundtrip.native', kind='native-enumeration(3 instants per day x 47482 days + stride 7919000017 ms, real headers, ASan+UBSan)', ok=False, cases=47482 * 3 + 519)
+    try:
+        exe = rp.build_native(os.path.join(rp.VERIF, 'replay', 'k_date.cpp'), os.path.join(wd, 'native_k_date'))
+        rc, o = rp.run_native(exe, ['search'])
+    except Exception as e:
+        res.update(broken=True, detail=str(e)[-500:])
+        return res
+    res['time'] = round(time.time() - t0, 2)
+    res['detail'] = o.strip()[-600:]
+    if rc == 0 and '"search_done":true' in o:
+        res['ok'] = True
+    elif rc != 1:
+        res['broken'] = True
+    return res
 
 UNIT = dict(
     name='k_date',
@@ -239,22 +332,20 @@ UNIT = dict(
     postlude=POST,
     proofs=[
         dict(name='epoch', harness='h_epoch', unwind=6, properties=['C09', 'C01'], solvers=['cadical', 'kissat', 'cvc5'],
-             timeout=dict(quick=240, thorough=900), floor=1),
+             timeout=dict(quick=900, thorough=900), floor=1),
         dict(name='digits', harness='h_digits', unwind=6, properties=['C09', 'C01'], solvers=['cadical', 'kissat'],
-             timeout=dict(quick=240, thorough=900), floor=2),
+             timeout=dict(quick=900, thorough=900), floor=2),
         dict(name='format', harness='h_format', unwind=6, properties=['C09', 'C01'], solvers=['cadical', 'kissat'],
-             timeout=dict(quick=300, thorough=900), floor=2),
+             timeout=dict(quick=900, thorough=900), floor=2),
         dict(name='parse_ts', harness='h_parse_ts', unwind=6, properties=['C09', 'C01'], solvers=['cadical', 'kissat'],
-             timeout=dict(quick=300, thorough=900), floor=1),
+             timeout=dict(quick=900, thorough=900), floor=1),
         dict(name='parse_time', harness='h_parse_time', unwind=6, properties=['C09', 'C01'], solvers=['cadical', 'kissat'],
-             timeout=dict(quick=300, thorough=900), floor=1),
+             timeout=dict(quick=900, thorough=900), floor=1),
         dict(name='parse_date', harness='h_parse_date', unwind=6, properties=['C09', 'C01'], solvers=['cadical', 'kissat'],
-             timeout=dict(quick=300, thorough=900), floor=1),
-        dict(name='cal_inverse', harness='h_cal_inverse', unwind=6, properties=['C09'], tier='thorough', solvers=['kissat', 'cadical'],
-             timeout=dict(quick=300, thorough=1500), floor=2),
-        dict(name='roundtrip', harness='h_roundtrip', unwind=6, properties=['C09', 'C01'], tier='thorough', solvers=['kissat', 'cadical'],
-             timeout=dict(quick=300, thorough=1800), floor=1),
+             timeout=dict(quick=900, thorough=900), floor=1),
     ],
+    native=[dict(name='cal_inverse_native', properties=['C09'], tier='quick', run=_native_cal),
+            dict(name='roundtrip_native', properties=['C09'], tier='quick', run=_native_roundtrip)],
     trusted_base=['spec_days_from_civil / spec_civil_from_days (Hinnant) as the meaning of proleptic Gregorian UTC',
                   'ASSUMED: Tickval::get_tm (std::chrono to_time_t + gmtime_r) returns the spec calendar fields; Tickval::msecs = (ns/10^6) mod 1000 (model bodies in specs/k_date.py)'],
     assumptions=['instants restricted to [1970-01-01, 2100-01-01) as the property states; utcdiff = 0'],
